@@ -281,6 +281,7 @@ prec_owned = ["explicit-missing-config-is-error", "load-ok", "database:", "logfi
 specs["C16"] = {"runs": [
     run(CMD + "options:Harness_settings_precedence", QT, {}, owned=prec_owned, cover=["loaded"], note="real urfave/cli Context + flag.FlagSet; 4 config-file situations x 2^4 flags x 2^4 config entries"),
     run(CMD + "register:Harness_no_database", QT, {}, cover=["ran"]),
+    run("cmd/hranoprovod-cli:Harness_app_no_database", QT, {}, cover=["ran"], note="whole application: --no-database against whatever names a book (nothing, --database, HR_DATABASE, the configuration file) for eleven commands: the output of the same command with an empty file as the book"),
     run("cmd/hranoprovod-cli:Harness_app_settings", Q, {"full": 0}, owned=prec_owned + ["print-layout=parse-layout"], cover=["loaded"], note="whole application GetApp().Run(args): the real flag definitions of root.go (names, defaults, EnvVars), urfave/cli flag and environment handling, options.Load; flag x env x config entry for one focus setting (the other settings jointly unset / from flags / from env / from config) x 7 configuration-file situations (absent, default location $HOME/.hranoprovod/config, --config, HR_CONFIG, either naming a missing file, --config over HR_CONFIG) x --today"),
     run("cmd/hranoprovod-cli:Harness_app_maxdepth", QT, {}, owned=["maxdepth:"], cover=["ran"], note="whole application: the resolve depth from flag / HR_MAXDEPTH / configuration file reaches each of nine resolving commands (book nested 3 deep: limits 1-3 rejected, 4+ resolve)"),
     run("cmd/hranoprovod-cli:Harness_app_stats_today", QT, {}, owned=["today:", "stats-ok"], cover=["ran"], note="whole application: --today is shown by stats as given, in every explored time zone"),
